@@ -8,10 +8,10 @@ ROOT = os.path.dirname(os.path.dirname(os.path.abspath(__file__)))
 CHECKS = {
  'C02': dict(cat='model_checking', ref='4/C02', tech='symbolic execution of BaseModel.solve_t/solve_period with z3 proxies (Float64/Int), joint-path comparison against a reference state machine, IEEE-754 confirmation + concrete replay',
    text='Bounded symbolic model checking of the real solve_t/solve_period: for each enumerated configuration (max_iter<=2 quick/<=4 thorough, 0..2 check variables, every position of a length-3 span, failures, catch_first_error, errors) z3 explores every feasible joint path of implementation and reference over ALL finite Float64 cell/pass values, any tol, symbolic min_iter and offset; holds within those bounds, nothing claimed beyond them.',
-   note='Trusted: symx engine (validated by per-path concrete witnesses and reachability twins), NumPy stand-in for array/isfinite/any/all/abs on proxy vectors, the reference state machine written from the property text, z3 5.1.0. Scripted models only; arithmetic uninterpreted during exploration (sound over-approximation), IEEE for counterexamples.'),
+   note='Trusted: symx engine (validated by per-path concrete witnesses and reachability twins), NumPy stand-in for array/isfinite/any/all/abs on proxy vectors, the reference state machine written from the property text, z3 5.1.0. Scripted models plus six parser-built ones (progloop); arbitrary pre-status of the period, public-API histories (solve/read, copy, reindex, whole-series assignment) before the symbolic step, pre- and post-solution hooks that write, strict models, solve_period on list / ndarray / str spans. Arithmetic uninterpreted during exploration (sound over-approximation), IEEE for counterexamples. Interpretation: with a writing pre-hook, pass 1 is measured from the values held on entry.'),
  'C06': dict(cat='model_checking', ref='4/C06', tech='symbolic execution of BaseModel.solve_t with z3 Float64 proxies incl. NaN/inf and symbolic fault kinds, joint-path comparison against the policy state machine, concrete replay',
    text='Bounded symbolic model checking of the error/failure policies: every errors x failures x catch_first_error x max_iter<=2(4) x 0..2 check variables configuration is explored over ALL Float64 values (NaN, +-inf included) per cell and pass and symbolic fault kinds (none/warning/exception at any statement, hooks too); every joint path must agree with the reference on exception type and cause, status, iterations, passes, hook calls and every cell.',
-   note="Trusted: as C02. Interpretations fixed in DESIGN C06 ('replace' baseline = zero-substituted vector; status after an exception under a non-'raise' policy unspecified). Scripted models; natural faults of parser-built equations are a separate sub-check."),
+   note="Trusted: as C02. Interpretations fixed in DESIGN C06 ('replace' baseline = zero-substituted vector; status after an exception under a non-'raise' policy unspecified). Scripted models; natural faults of parser-built equations are a separate sub-check that models NumPy's warning rules AND its process-wide error state (np.seterr / errstate); fault kinds: RuntimeWarning, UserWarning, DeprecationWarning, exception, fsic's own SolutionError; arbitrary pre-status; histories; writing hooks."),
 }
 
 CHECKS.update({
@@ -20,7 +20,7 @@ CHECKS.update({
    note='Trusted: as C02 plus the first-match reading of explicit labels on list spans with repeated labels (on NumPy-array spans an explicit label matching several positions must raise KeyError); histories: models solved before on another span, then reindexed / copied. pandas spans outside the claim.'),
  'C08': dict(cat='model_checking', ref='4/C08', tech='symbolic execution of BaseLinker.__init__/solve_t/evaluate_t with z3 proxies, joint-path comparison against a reference written from the statement and against the bare-model twin (wrapper law)',
    text='Bounded symbolic model checking of the linker: 1..2 (3 thorough) scripted submodels, 0..1 linker check variables, every ordered sub-selection and unknown ids, max_iter 0..2 (3), symbolic finite values per iteration, any tol, symbolic min_iter and offset; call order, convergence verdict, statuses and iteration counts on linker and submodels, untouched unselected submodels, KeyError/IndexError/InitialisationError, LAGS/LEADS maxima over symbolic integers and the single-model wrapper law are decided per joint path.',
-   note='Trusted: as C02; stand-in also installed for fsic.core.linkers.np. Finite data and min_iter <= max_iter assumed (the linker has no errors policy and solve_t does not validate min_iter; the statement presumes both).'),
+   note='Trusted: as C02; stand-in also installed for fsic.core.linkers.np. min_iter <= max_iter assumed (solve_t of the linker does not validate it; the statement presumes it). Histories: earlier solves with other selections of submodels, linker copied; negative positions with symbolic offsets.'),
  'C17': dict(cat='model_checking', ref='4/C17', tech='symbolic twin execution (TracerMixin model with trace=..., plain model, tracer with tracing off) on the C02/C06 harness; z3 equality of cells and of trace snapshots per joint path',
    text='Bounded symbolic model checking that tracing is observationally neutral and faithful: for every configuration of the C06 lattice (max_iter<=2/3, faults, policies) and trace in {True, [name], name}, entry solve_t/solve_period, every joint path of traced, untraced and trace-off runs has identical outcome/status/iterations/cells, the trace labels are start, before, 0, 1..k[, end] and snapshot j is z3-equal to the values after pass j; no trace is written elsewhere or with tracing off.',
    note='Trusted: as C06; Trace.append/np.hstack run for real on object arrays. Histories (traced solves before, then re-bound / copied / reindexed; a failed traced solve of another period), run-time variables and method-named variables included. reset=True outside the claim.'),
